@@ -42,6 +42,22 @@ def gen_inputs(rng, count):
     return res
 
 
+def gen_long_inputs(rng, count):
+    """vectors of 17..100 channels (beyond the lengths TLC enumerates; numpy sorts them on another code path) over
+    the small alphabet a/b, a,b in 1..4 - many equal gains - with a total power between 1/4 and 4n, so that anything
+    from one to all channels is active.  Denominators stay small at any length: U <= n * 576."""
+    def r4():
+        f = Fraction(int(rng.randint(1, 5)), int(rng.randint(1, 5)))
+        return [f.numerator, f.denominator]
+    res = []
+    for _ in range(count):
+        n = int(rng.randint(17, 101))
+        p = Fraction(int(rng.randint(1, 5)), int(rng.randint(1, 5))) * int(rng.randint(1, n + 1))
+        res.append({"g": [r4() for _ in range(n)], "p": [p.numerator, p.denominator], "n0": r4(), "es": r4(),
+                    "how": int(rng.randint(0, 6))})
+    return res
+
+
 def present(gf, inp, how):
     """the gain vector in one of several exact numpy representations (chosen by the recorder's seed)"""
     integral = all(b == 1 for _, b in inp["g"])
@@ -159,13 +175,17 @@ def negative_control(ctx, traces, bad):
 def run(ctx):
     rng = np.random.RandomState(1000003 * ctx.seed + 12)
     count = 20000 if ctx.tier == "thorough" else 1500
-    traces = [record(i) for i in gen_inputs(rng, count)]
-    bad = validate(ctx, traces, f"{count} recorded calls, random rationals a/b (a,b in 1..6), length 1-4")
+    nlong = count // 5
+    traces = [record(i) for i in gen_inputs(rng, count) + gen_long_inputs(rng, nlong)]
+    bad = validate(ctx, traces, f"{count} recorded calls, random rationals a/b (a,b in 1..6), length 1-4, and "
+                                f"{nlong} calls of length 17-100 (a,b in 1..4)")
     judge(ctx, traces, bad)
     negative_control(ctx, traces, bad)
-    ctx.notes["recorded_calls_validated"] = count
+    ctx.notes["recorded_calls_validated"] = len(traces)
+    ctx.notes["recorded_long_vectors"] = {"calls": nlong, "max_switched_off_in_one_call": max(
+        (sum(1 for x in t["pw"] if x[0] == 0) for t in traces[count:] if t["outcome"] == "ok"), default=0)}
     ctx.assumptions.append("stage T: float results converted by Fraction.limit_denominator(1e6), round trip <= 1e-12; "
-                           "true denominators divide U <= 129600, so the conversion is unique")
+                           "true denominators divide U <= 129600 (short) / 57600 (long vectors), so the conversion is unique")
     ctx.sample({"stage": "T", "call": {k: traces[0][k] for k in ("g", "p", "n0", "es", "pw", "mu")}})
 
 
